@@ -32,12 +32,13 @@ fn special<T: Sc>(rng: &mut Rng) -> T {
     T::of(*rng.pick(&SPECIALS))
 }
 
-/// one entry of the basis matrix replaced by a special value (what=entry-special)
-pub type Poke<T> = Option<(usize, usize, T)>;
+/// one entry of the basis matrix (`which` = None) or of the `which`-th partial-derivative matrix
+/// replaced by a special value (what=entry-special / deriv-special)
+pub type Poke<T> = Option<(Option<usize>, usize, usize, T)>;
 
-fn poked<T: Sc>(mut m: DMatrix<T>, poke: &Poke<T>) -> DMatrix<T> {
-    if let Some((i, j, v)) = poke {
-        if *i < m.nrows() && *j < m.ncols() {
+fn poked<T: Sc>(mut m: DMatrix<T>, poke: &Poke<T>, which: Option<usize>) -> DMatrix<T> {
+    if let Some((w, i, j, v)) = poke {
+        if *w == which && *i < m.nrows() && *j < m.ncols() {
             m[(*i, *j)] = *v;
         }
     }
@@ -45,9 +46,9 @@ fn poked<T: Sc>(mut m: DMatrix<T>, poke: &Poke<T>) -> DMatrix<T> {
 }
 
 fn emit_tables_poked<T: Sc>(out: &mut Out, recipe: &Recipe, alpha: &[T], poke: &Poke<T>) {
-    out.line(&format!(" phi ok {}", mat_str(&poked(recipe.phi::<T>(alpha), poke))));
+    out.line(&format!(" phi ok {}", mat_str(&poked(recipe.phi::<T>(alpha), poke, None))));
     for k in 0..recipe.p() {
-        out.line(&format!(" d {} ok {}", k, mat_str(&recipe.dphi::<T>(alpha, k))));
+        out.line(&format!(" d {} ok {}", k, mat_str(&poked(recipe.dphi::<T>(alpha, k), poke, Some(k)))));
     }
 }
 
@@ -66,11 +67,16 @@ fn build_guarded<T: Sc>(
     with_deadline(secs, move || {
         let m = match poke {
             None => wrap_any(any_model(&recipe, &init, built)),
-            Some(e) => wrap_any(AnyModel::Dyn(Box::new(RowModel {
+            Some((which, i, j, v)) => wrap_any(AnyModel::Dyn(Box::new(RowModel {
                 inner: any_model(&recipe, &init, built),
                 scale: None,
                 overwrite: vec![],
-                entries: vec![e],
+                entries: if which.is_none() { vec![(i, j, v)] } else { vec![] },
+                fail_deriv: None,
+                dentries: match which {
+                    Some(k) => vec![(k, i, j, v)],
+                    None => vec![],
+                },
             }))),
         };
         let wv = w.map(DVector::from_vec);
@@ -234,7 +240,7 @@ pub fn stream(out: &mut Out, seed: u64, thorough: bool) {
 }
 
 fn one<T: Sc>(out: &mut Out, rng: &mut Rng, i: usize, thorough: bool) {
-    let kind = i % 9;
+    let kind = i % 10;
     let mut poke: Poke<T> = None;
     let mut c = if kind >= 5 && kind < 8 {
         // exponential families from far / extreme starts
@@ -327,9 +333,26 @@ fn one<T: Sc>(out: &mut Out, rng: &mut Rng, i: usize, thorough: bool) {
                 _ => (rng.below(n), rng.below(m)),
             };
             let v = *rng.pick(&[f64::NAN, f64::INFINITY, f64::NEG_INFINITY, f64::NAN, 1e308]);
-            poke = Some((r, cc, T::of(v)));
+            poke = Some((None, r, cc, T::of(v)));
             if rng.chance(0.5) {
                 second = Some(random_alpha(rng, c.recipe.p()).iter().map(|v| T::of(*v)).collect());
+            }
+        }
+        9 => {
+            // a partial derivative with one non-finite element while the basis matrix is finite, and
+            // observations that are fitted exactly by zero coefficients: the fit stops at once
+            // (residuals zero) without ever asking for the Jacobian, and the STATISTICS are the first
+            // code to meet the non-finite derivative
+            what = "deriv-special";
+            let (n, m, p) = (c.recipe.n(), c.recipe.m(), c.recipe.p());
+            let v = *rng.pick(&[f64::NAN, f64::INFINITY, f64::NEG_INFINITY]);
+            poke = Some((Some(rng.below(p)), rng.below(n), rng.below(m), T::of(v)));
+            c.flavour = if i % 4 == 1 { Flavour::NewPar } else { Flavour::New };
+            c.y = DMatrix::from_element(n, 1, T::of(0.0));
+            if rng.chance(0.3) {
+                // ... or by an exactly representable multiple of a constant column
+                c.recipe.fns.push(FnSpec { kind: Kind::One, params: vec![] });
+                c.y = DMatrix::from_element(n, 1, T::of(2.0));
             }
         }
         4 => {
@@ -353,6 +376,6 @@ fn one<T: Sc>(out: &mut Out, rng: &mut Rng, i: usize, thorough: bool) {
     }
     let _ = thorough;
     let cfg = if i % 5 == 0 { random_lmcfg(rng) } else { LmCfg::default_cfg() };
-    let with_stats = !c.flavour.is_mrhs() && i % 2 == 0;
+    let with_stats = !c.flavour.is_mrhs() && (i % 2 == 0 || kind == 9);
     emit_robust_case(out, &c, second, &cfg, with_stats, what, poke);
 }
